@@ -37,9 +37,25 @@ func Run(r *core.Run) {
 			count = core.Pick(r, 4096, 16384)
 		}
 		w := keys.Width(t)
-		core.Parallel(count, func(i int) {
-			k := keys.New(t, i)
+		// the derived keys, and for the curves: both keys with a coordinate that begins with two zero bytes and four public keys
+		// whose X lies between the group order and the field prime (valid points; only public-key operations are applied to them)
+		special := []*keys.Key{}
+		if t != "Ed25519" {
+			special = append(special, keys.WithTwoLeadingZeros(t, 0), keys.WithTwoLeadingZeros(t, 1))
+			for j := 0; j < 4; j++ {
+				special = append(special, keys.PublicWithXAtLeastOrder(t, j))
+			}
+			r.Class("special-keys-" + t)
+		}
+		core.Parallel(count+len(special), func(i int) {
+			var k *keys.Key
 			id := fmt.Sprintf("roundtrip/%s/%d", t, i)
+			if i < count {
+				k = keys.New(t, i)
+			} else {
+				k = special[i-count]
+				id = fmt.Sprintf("roundtrip/%s/special-%d", t, k.Index)
+			}
 			x, y := k.XY()
 			if x[0] == 0 || (y != nil && y[0] == 0) {
 				r.Class("leading-zero-" + t)
@@ -103,7 +119,7 @@ func Run(r *core.Run) {
 				return nil
 			})
 		})
-		r.AddDistinct(int64(count))
+		r.AddDistinct(int64(count + len(special)))
 	}
 	r.Sample(map[string]any{"type": "P-521", "index": 0, "jwk": keys.New("P-521", 0).JWKMap()})
 
